@@ -5,7 +5,7 @@ schedules and faults; every impl trace must be accepted by System.step (coqc vm_
 Coq monitors; Python oracles judge impl's trace and final state directly (harness/syscheck.py)."""
 from harness import core, syscheck
 
-MODES = {'plain': 7, 'local': 2, 'hooks': 1}
+MODES = {'plain': 5, 'racing_try': 4, 'local': 2, 'hooks': 1}
 
 
 def run(chk):
